@@ -1,11 +1,235 @@
 import Driver.Common
+import RxModel.ThrSO
+import RxModel.ThrTramp
 open Lean Drv
 
 namespace DrvThr
 
-def handle (op : String) (_j : Json) : Except String Json := do
+/-! ## C32: ScheduledObserver atomic-step model -/
+section SO
+open Thr.SO
+
+def lblToJson : Lbl Int → Json
+  | .noop => Json.arr #[.str "noop"]
+  | .skip => Json.arr #[.str "skip"]
+  | .check => Json.arr #[.str "check"]
+  | .mark => Json.arr #[.str "mark"]
+  | .append x => Json.arr #[.str "append", .num (JsonNumber.fromInt x)]
+  | .ea o => Json.arr #[.str "ea", .bool o]
+  | .sched => Json.arr #[.str "sched"]
+  | .runBegin => Json.arr #[.str "runBegin"]
+  | .pop x => Json.arr #[.str "pop", .num (JsonNumber.fromInt x)]
+  | .release => Json.arr #[.str "release"]
+  | .dstart x => Json.arr #[.str "dstart", .num (JsonNumber.fromInt x)]
+  | .dend r => Json.arr #[.str "dend", .bool r]
+  | .fault => Json.arr #[.str "fault"]
+  | .resched => Json.arr #[.str "resched"]
+
+def callOfJson (j : Json) : Except String (Call Int) :=
+  match j with
+  | .arr #[x, .bool t] => do pure { item := (← x.getInt?), terminal := t }
+  | _ => throw s!"bad call {j.compress}"
+
+def tidOfJson (k : Json) (i : Json) : Except String Tid := do
+  let n ← i.getNat?
+  match k with
+  | .str "p" => pure (.prod n)
+  | .str "c" => pure (.cons n)
+  | _ => throw "bad tid"
+
+def sysJson (s : Sys Int) : Json :=
+  Json.mkObj [("delivered", Json.arr (s.delivered.map fun x => Json.num (JsonNumber.fromInt x)).toArray),
+    ("received", Json.arr (s.received.map fun x => Json.num (JsonNumber.fromInt x)).toArray),
+    ("queue", Json.arr (s.queue.map fun x => Json.num (JsonNumber.fromInt x)).toArray),
+    ("acq", .bool s.isAcquired), ("faulted", .bool s.hasFaulted), ("stopped", .bool s.isStopped),
+    ("pending", .num (JsonNumber.fromNat s.pendingRuns)), ("quiescent", .bool (quiescent s))]
+
+def getSys (j : Json) : Except String (Sys Int × (Nat → Bool)) := do
+  let progs ← (← getArr j "progs").mapM fun p => do
+    match p with
+    | .arr cs => cs.toList.mapM callOfJson
+    | _ => throw "bad prog"
+  let nc ← getNat j "nc"
+  let raisesL := (← getArr j "raises").filterMap (fun x => x.getNat?.toOption)
+  pure (init progs nc, fun k => raisesL.contains k)
+
+/-- replay an observed sequence of (thread, label): each observed step must be the step the model takes. -/
+def replay (raises : Nat → Bool) : Sys Int → Nat → List (Tid × Json) → Sys Int × Option (Nat × Json)
+  | s, _, [] => (s, none)
+  | s, k, (t, l) :: rest =>
+    let (s', ml) := stepL raises s t
+    let mj := lblToJson ml
+    if mj == l then replay raises s' (k + 1) rest else (s, some (k, mj))
+
+/-- run thread `t` until `stop` holds (at most `fuel` steps) -/
+def runUntil (raises : Nat → Bool) (t : Tid) (stop : Sys Int → Bool) : Nat → Sys Int → Sys Int
+  | 0, s => s
+  | n + 1, s => let s' := step raises s t; if stop s' then s' else runUntil raises t stop n s'
+
+def prodCallsLeft (s : Sys Int) (i : Nat) : Nat :=
+  match s.prods[i]? with
+  | some p => p.calls.length + (if p.pc == .ready then 0 else 1)
+  | none => 0
+
+def consIdle (s : Sys Int) (j : Nat) : Bool :=
+  match s.cons[j]? with
+  | some c => c.isIdle
+  | none => true
+
+def handleSO (op : String) (j : Json) : Except String Json := do
   match op with
+  | "so_trace" =>
+    let (s0, raises) ← getSys j
+    let steps ← (← getArr j "trace").mapM fun e =>
+      match e with
+      | .arr #[k, i, l] => do pure ((← tidOfJson k i), l)
+      | _ => throw "bad trace entry"
+    let (s, bad) := replay raises s0 0 steps
+    match bad with
+    | none => pure (Json.mkObj [("ok", .bool true), ("final", sysJson s)])
+    | some (k, ml) => pure (Json.mkObj [("ok", .bool false), ("at", .num (JsonNumber.fromNat k)), ("model", ml), ("state", sysJson s)])
+  | "so_seq" =>
+    -- method-level history: ["emit", p] = producer p performs its next call to completion; ["pump", c] = consumer c
+    -- executes one pending `run` action to completion (no-op when none is pending)
+    let (s0, raises) ← getSys j
+    let ops ← getArr j "ops"
+    let mut s := s0
+    let mut outs : Array Json := #[]
+    for o in ops do
+      match o with
+      | .arr #[.str "emit", i] =>
+        let i ← i.getNat?
+        let target := prodCallsLeft s i - 1
+        if prodCallsLeft s i > 0 then
+          s := runUntil raises (.prod i) (fun s' => prodCallsLeft s' i ≤ target) 16 s
+      | .arr #[.str "pump", c] =>
+        let c ← c.getNat?
+        if s.pendingRuns > 0 then
+          s := runUntil raises (.cons c) (fun s' => consIdle s' c) 16 s
+      | _ => throw s!"bad op {o.compress}"
+      outs := outs.push (sysJson s)
+    pure (Json.arr outs)
   | _ => throw s!"unknown op {op}"
+end SO
+
+/-! ## C30: trampoline -/
+section Tramp
+open Thr.Tramp
+
+def jInt (i : Int) : Json := .num (JsonNumber.fromInt i)
+def jNat (n : Nat) : Json := .num (JsonNumber.fromNat n)
+
+partial def opOfJson (j : Json) : Except String Op := do
+  match j with
+  | .arr #[.str "sched", l, .arr b] => pure (.sched (← l.getNat?) (← b.toList.mapM opOfJson))
+  | .arr #[.str "rel", l, d, .arr b] => pure (.schedRel (← l.getNat?) (← d.getInt?) (← b.toList.mapM opOfJson))
+  | .arr #[.str "abs", l, t, .arr b] => pure (.schedAbs (← l.getNat?) (← t.getInt?) (← b.toList.mapM opOfJson))
+  | .arr #[.str "cancel", l] => pure (.cancel (← l.getNat?))
+  | .arr #[.str "tick", d] => pure (.tick (← d.getNat?))
+  | _ => throw s!"bad op {j.compress}"
+
+def evToJson : Ev → Option Json
+  | .sched id due clk _ => some (Json.arr #[.str "sched", jNat id, jInt due, jInt clk])
+  | .start id _ _ clk => some (Json.arr #[.str "start", jNat id, jInt clk])
+  | .fin id => some (Json.arr #[.str "fin", jNat id])
+  | .skip id => some (Json.arr #[.str "skip", jNat id])
+  | .cancel id => some (Json.arr #[.str "cancel", jNat id])
+  | .wait t => some (Json.arr #[.str "wait", jInt t])
+  | _ => none
+
+def secJson (enq : Option Nat) (deq : List Nat) (idle : Option Bool) (clear : Option (List Nat)) (wait : Option Int) : Json :=
+  Json.arr #[.str "sec", (match enq with | some i => jNat i | none => .null), Json.arr (deq.map jNat).toArray,
+    (match idle with | some b => .bool b | none => .null),
+    (match clear with | some l => Json.arr (l.map jNat).toArray | none => .null),
+    (match wait with | some t => jInt t | none => .null)]
+
+/-- the label of the step thread state `th` is about to take (none = silent step) -/
+def stepLabel (fixed : Bool) (tr : Tr) (g : Glob) (th : Th) : Option Json :=
+  match th.stack with
+  | [] => none
+  | .act none [] :: _ => none
+  | .act (some i) [] :: _ => some (Json.arr #[.str "fin", jNat i])
+  | .act _ (.tick d :: _) :: _ => some (Json.arr #[.str "tick", jNat d])
+  | .act _ (.cancel k :: _) :: _ => some (Json.arr #[.str "cancel", jNat k])
+  | .act _ (.sched l _ :: _) :: _ => some (Json.arr #[.str "sched", jNat l, jInt g.clock, jInt g.clock])
+  | .act _ (.schedRel l d _ :: _) :: _ => some (Json.arr #[.str "sched", jNat l, jInt (g.clock + max d 0), jInt g.clock])
+  | .act _ (.schedAbs l t _ :: _) :: _ => some (Json.arr #[.str "sched", jNat l, jInt t, jInt g.clock])
+  | .enq _ it _ :: _ => some (secJson (some it.id) [] (if tr.idle then some false else none) none none)
+  | .drain .collect _ :: _ => some (secJson none ((tr.queue.takeWhile (isDue g.clock)).map (·.id)) none none none)
+  | .drain .exec [] :: _ => none
+  | .drain .exec (it :: _) :: _ =>
+    if it.id ∈ g.cancelled then some (Json.arr #[.str "skip", jNat it.id]) else some (Json.arr #[.str "start", jNat it.id])
+  | .drain .check _ :: _ =>
+    match tr.queue with
+    | [] => some (secJson none [] (if fixed then some true else none) none none)
+    | it :: _ => if it.due > g.clock then some (secJson none [] none none (some it.due)) else some (secJson none [] none none none)
+  | .drain .final _ :: _ => some (secJson none [] (some true) (some (tr.queue.map (·.id))) none)
+
+def sysLabel (fixed : Bool) (s : Sys) (i : Nat) : Option Json :=
+  match s.ths[i]? with
+  | none => none
+  | some (k, th) => match s.trs[k]? with
+    | none => none
+    | some tr => stepLabel fixed tr s.g th
+
+def thDone (s : Sys) (i : Nat) : Bool :=
+  match s.ths[i]? with
+  | some (_, th) => th.stack.isEmpty
+  | none => true
+
+/-- advance thread `i` over silent steps (at most `fuel`) until its next step is labelled -/
+def skipSilent (fixed : Bool) (i : Nat) : Nat → Sys → Sys
+  | 0, s => s
+  | n + 1, s => if thDone s i then s else
+      match sysLabel fixed s i with
+      | some _ => s
+      | none => skipSilent fixed i n (s.step fixed i 0)
+
+def replayTr (fixed : Bool) : Sys → Nat → List (Nat × Json) → Sys × Option (Nat × Json)
+  | s, _, [] => (s, none)
+  | s, k, (i, l) :: rest =>
+    let s1 := skipSilent fixed i 8 s
+    match sysLabel fixed s1 i with
+    | none => (s1, some (k, Json.arr #[.str "done"]))
+    | some ml => if ml == l then replayTr fixed (s1.step fixed i 0) (k + 1) rest else (s1, some (k, ml))
+
+def trJson (tr : Tr) : Json := Json.mkObj [("idle", .bool tr.idle), ("queue", Json.arr (tr.queue.map (fun it => jNat it.id)).toArray)]
+
+def handleTr (op : String) (j : Json) : Except String Json := do
+  let fixed ← getBool j "fixed"
+  let clock ← getInt j "clock"
+  match op with
+  | "tr_seq" =>
+    let prog ← (← getArr j "prog").mapM opOfJson
+    let fuel ← getNat j "fuel"
+    let s := exec fixed fuel (init prog clock)
+    pure (Json.mkObj [("events", Json.arr (s.th.log.reverse.filterMap evToJson).toArray), ("done", .bool s.th.stack.isEmpty),
+      ("idle", .bool s.tr.idle), ("queue", jNat s.tr.queue.length), ("clock", jInt s.g.clock)])
+  | "tr_trace" =>
+    let ntr ← getNat j "ntr"
+    let progs ← (← getArr j "progs").mapM fun p =>
+      match p with
+      | .arr #[k, .arr ops] => do pure ((← k.getNat?), (← ops.toList.mapM opOfJson))
+      | _ => throw "bad prog"
+    let steps ← (← getArr j "trace").mapM fun e =>
+      match e with
+      | .arr #[i, l] => do pure ((← i.getNat?), l)
+      | _ => throw "bad trace entry"
+    let (s, bad) := replayTr fixed (Sys.init ntr progs clock) 0 steps
+    -- let every thread finish its trailing silent steps
+    let s := (List.range progs.length).foldl (fun s i => skipSilent fixed i 8 s) s
+    let fin := Json.mkObj [("done", Json.arr ((List.range progs.length).map fun i => Json.bool (thDone s i)).toArray),
+      ("trs", Json.arr (s.trs.map trJson).toArray), ("clock", jInt s.g.clock)]
+    match bad with
+    | none => pure (Json.mkObj [("ok", .bool true), ("final", fin)])
+    | some (k, ml) => pure (Json.mkObj [("ok", .bool false), ("at", jNat k), ("model", ml), ("state", fin)])
+  | _ => throw s!"unknown op {op}"
+end Tramp
+
+def handle (op : String) (j : Json) : Except String Json := do
+  if op.startsWith "so_" then handleSO op j
+  else if op.startsWith "tr_" then handleTr op j
+  else throw s!"unknown op {op}"
 
 end DrvThr
 
